@@ -42,6 +42,20 @@ def valid_packet(kind, src=5, sid=1):
     return (wire.actisense(127250, src, 255, 2, data) + "\r\n").encode()
 
 
+def claim_packet(kind, src=5):
+    """ISO address claim of the probe's sender (needed when the client builds a network map: unclaimed senders are withheld)."""
+    from .. import traffic
+    i = wire.ident(60928, src, 255, 6)
+    data = traffic.iso_name(4711, 137).to_bytes(8, "little")
+    if kind == "ebyte":
+        return wire.ebyte(i, data)
+    if kind == "waveshare":
+        return wire.usb(i, data)
+    if kind == "yd":
+        return (wire.yd(i, data) + "\r\n").encode()
+    return (wire.actisense(60928, src, 255, 6, data) + "\r\n").encode()
+
+
 def garbage(kind):
     if kind == "ebyte":
         return bytes(range(7))                 # a partial 13-byte block
@@ -65,6 +79,7 @@ def scripts(draw, kind):
                     "refusals": draw(st.sampled_from([0, 0, 1, 2, 3, 5, 8, 12])),
                     "connect_error": draw(st.sampled_from(CONNECT_ERRORS))})
     return {"initial_refusals": draw(st.sampled_from([0, 0, 1, 2, 4, 7, 12])), "episodes": eps, "initial_error": draw(st.sampled_from(CONNECT_ERRORS)),
+            "network_map": draw(st.sampled_from([False, False, True])),
             "status_mode": draw(st.sampled_from(["plain", "plain", "slow", "slow_connected", "raise"]))}
 
 
@@ -100,7 +115,8 @@ def failing_attempts(how, n):
 
 def run_script(kind, script):
     plan = failing_attempts(script.get("initial_error", False), script["initial_refusals"])
-    s = aio.Session(kind, connect_plan=plan)
+    netmap = bool(script.get("network_map"))
+    s = aio.Session(kind, connect_plan=plan, client_kwargs={"build_network_map": True} if netmap else None)
     s.status_mode = script.get("status_mode", "plain")
     s.fault_times = []
     s.accept_times = []
@@ -184,6 +200,9 @@ def run_script(kind, script):
             while c.state.name != "CONNECTED" and s.loop.time() - t0 < 50:
                 await asyncio.sleep(0.05)
             await asyncio.sleep(0.2)
+            if netmap:
+                link.feed(claim_packet(kind))
+                await asyncio.sleep(0.2)
             before = len(s.received)
             link.feed(valid_packet(kind, sid=99))
             await asyncio.sleep(2.0)
@@ -195,6 +214,10 @@ def run_script(kind, script):
             s.after_trace = [x for _, x in s.status_trace[mark[1]:]]
             if s.quiet_after:
                 before = len(s.received)
+                if netmap:
+                    s.gw.link.feed(claim_packet(kind))
+                    await asyncio.sleep(0.2)
+                    before = len(s.received)
                 s.gw.link.feed(valid_packet(kind, sid=98))
                 await asyncio.sleep(1.0)
                 s.probe2_delivered = len(s.received) > before
@@ -325,8 +348,14 @@ def _special(ctx: Ctx, item):
     one is backing off."""
     kind, what = item
     if what == "errors":
-        variants = [{"initial_refusals": 2, "initial_error": e, "status_mode": "plain",
-                     "episodes": [{"fault": "eof", "at": ("time", 0.5), "mid_packet": False, "refusals": 2, "connect_error": e}]} for e in CONNECT_ERRORS]
+        variants = [{"initial_refusals": 2, "initial_error": e, "status_mode": "plain", "network_map": i % 2 == 1,
+                     "episodes": [{"fault": "eof", "at": ("time", (0.5, 3.0, 0.005)[i % 3]), "mid_packet": False, "refusals": 2, "connect_error": e}]}
+                    for i, e in enumerate(CONNECT_ERRORS)]
+        # every fault kind shortly after CONNECTED on a client that builds a network map (it asks the bus for address claims right then)
+        variants += [{"initial_refusals": 0, "status_mode": "plain", "network_map": True,
+                      "episodes": [{"fault": f, "at": ("time", t), "mid_packet": False, "refusals": 1, "connect_error": False}]}
+                     for f in FAULTS if (f not in ("sorry", "sorry_reset_send") or kind == "ebyte") and not (f == "write_error" and kind == "actisense")
+                     for t in (0.3, 2.0, 5.5)]
     elif what == "long":
         variants = [{"initial_refusals": 1100, "episodes": [], "status_mode": "plain"},
                     {"initial_refusals": 0, "status_mode": "plain",
